@@ -280,6 +280,13 @@ Proof.
     + exact (IH _ Htl i a x Hn Hl Hneed).
 Qed.
 
+Lemma writes_of_In th i a x : nth_error th i = Some a -> acc_loc a = Some x -> acc_write a = true ->
+  In x (writes_of th).
+Proof.
+  intros Hn Hl Hw. unfold writes_of. apply in_flat_map. exists a. split; [eapply nth_error_In; eauto|].
+  rewrite Hl, Hw. now left.
+Qed.
+
 Lemma accessesb_true f x a : acc_loc a = Some x -> f a = true -> accessesb f x a = true.
 Proof. intros Hl Hf. unfold accessesb. now rewrite Hl, Nat.eqb_refl, Hf. Qed.
 
@@ -293,12 +300,29 @@ Proof.
     split; [eapply nth_error_In; eauto|now apply accessesb_true].
 Qed.
 
+Lemma In_nodup_nat x l : In x l -> In x (nodup_nat l).
+Proof.
+  induction l as [|y r IH]; [contradiction|]. simpl. intros [->|H].
+  - destruct (memb x r) eqn:E; [apply IH; now apply memb_In|now left].
+  - destruct (memb y r); [auto|right; auto].
+Qed.
+
+Lemma need_list_complete B x : needs_lock B x -> memb x (need_list B) = true.
+Proof.
+  intros Hn. pose proof (needs_lockb_complete B x Hn) as Hb.
+  unfold needs_lockb in Hb. apply andb_true_iff in Hb. destruct Hb as [_ Hp].
+  destruct Hn as [(th & i & a & Hin & Hnth & Hl & Hw) _].
+  apply memb_In. unfold need_list. apply filter_In. split; [|exact Hp].
+  unfold written_locs. apply In_nodup_nat. apply in_flat_map. exists th. split; [assumption|].
+  eapply writes_of_In; eauto.
+Qed.
+
 Theorem disciplinedb_sound B prot : disciplinedb B prot = true -> disciplined B prot.
 Proof.
   intros Hc th i a x Hin Hn Hl Hneed. unfold disciplinedb in Hc.
   rewrite forallb_forall in Hc. specialize (Hc th Hin).
   apply protectedb_sound. unfold held_at.
-  exact (check_thread_sound _ _ _ _ Hc i a x Hn Hl (needs_lockb_complete B x Hneed)).
+  exact (check_thread_sound _ _ _ _ Hc i a x Hn Hl (need_list_complete B x Hneed)).
 Qed.
 
 Theorem disciplinedb_auto_sound B : disciplinedb_auto B = true -> exists prot, disciplined B prot.
@@ -336,13 +360,6 @@ Proof.
   rewrite orb_true_iff. intros [H|H].
   - apply Nat.eqb_eq in H. subst. exists c. now left.
   - destruct (IH H) as [c' Hc]. exists c'. now right.
-Qed.
-
-Lemma writes_of_In th i a x : nth_error th i = Some a -> acc_loc a = Some x -> acc_write a = true ->
-  In x (writes_of th).
-Proof.
-  intros Hn Hl Hw. unfold writes_of. apply in_flat_map. exists a. split; [eapply nth_error_In; eauto|].
-  rewrite Hl, Hw. now left.
 Qed.
 
 Theorem isolatedb_sound B opaque cls : isolatedb B opaque cls = true -> isolated B opaque cls.
